@@ -4,6 +4,8 @@ pub mod syntax {
     use vstd::prelude::*;
     use crate::*;
     verus! {
+    /// the last diagnostic's span (ghost observation recorded by Report::error_span's stub contract)
+    pub uninterp spec fn err_span(r: &diagn::Report) -> diagn::Span;
     // ---- std gaps (ASSUMED): char::to_digit is a function of (char, radix) yielding a digit below the radix;
     // char::from_u32 is a function of the code
     pub uninterp spec fn spec_to_digit(c: char, radix: u32) -> Option<u32>;
